@@ -270,7 +270,7 @@ def r19_python(chk):
         chk.need(len(calls) == 1, 'Panel.calc_kA: expected one %s call' % kname)
         for model in AERO_MODELS:
             mp, probs = bind(calls[0], kernel_sig(panelk.MODELS[model], kname))
-            got = {p: norm(a) for p, a in mp.items()}
+            got = pyrules.bound_texts(fn, mp)
             chk.ob('R19.4', not probs and got == exp, PANEL, 'Panel.calc_kA', '%s call vs %s signature' % (kname, model),
                    line=calls[0].lineno, expected=exp, got=got, detail='; '.join(probs))
         tests = [(norm(t), pol) for t, pol in pyrules.enclosing_tests(fn, calls[0])]
